@@ -21,7 +21,7 @@ UID_TABLES = ['managed_objects', 'crypto_objects', 'keys', 'symmetric_keys', 'pu
 
 def plan(tier):
     return {
-        'level': 'exploration', 'shards': 16, 'budget_s': 120 if tier == 'quick' else 800,
+        'level': 'exploration', 'shards': 16, 'budget_s': 240 if tier == 'quick' else 800,
         'rule': 'multi-client histories heavy on Create / CreateKeyPair / Register / DeriveKey and Destroy (incl. destroy '
                 'the newest then create), with clean restarts, abandoned engines and process kills (fork + _exit) between and '
                 'inside requests; every acknowledged identifier is checked against the set of all identifiers ever '
